@@ -12,7 +12,18 @@ P == INSTANCE PQBatch WITH data <- <<>>, mark <- 0, lastBatch <- <<>>, lastRes <
 Ev == TraceLog[l]
 OpOf(c) == IF c = 0 THEN <<"pop">> ELSE <<"push", c>>
 BatchOf(e) == [i \in 1..Len(e.ops) |-> OpOf(e.ops[i])]
-Good(e) == /\ P!IsHeap(e.d1) /\ e.mark1 = Len(e.d1)
+\* the state a batch leaves behind is judged by what it does next, not by its shape: popping one by one afterwards (drain) must deliver exactly the contents, largest
+\* first (whether the array is a heap with mark = size at that moment is the implementation's business - the transcription compares that, as drift)
+Descending(s) == \A i \in 1..(Len(s) - 1) : s[i] >= s[i + 1]
+SameBag(s, t) == Len(s) = Len(t) /\ \A v \in Values : P!Count(s, v) = P!Count(t, v)
+MaxS(S) == CHOOSE x \in S : \A y \in S : y <= x
+Elems(s) == {s[i] : i \in DOMAIN s}
+\* a following batch <push v, pop>: the pop answers the maximum of the contents with or without v (either order of the two is a legal linearization)
+ProbeOK(e) == \A i \in DOMAIN e.probe : LET v == e.probe[i][1]  r == e.probe[i][2] IN
+                 \/ r = MaxS(Elems(e.d1) \cup {v})
+                 \/ (e.d1 # <<>> /\ r = MaxS(Elems(e.d1)))
+                 \/ (e.d1 = <<>> /\ r = -1)
+Good(e) == /\ Descending(e.drain) /\ SameBag(e.drain, e.d1) /\ ProbeOK(e)
            /\ P!Conserved(e.d0, BatchOf(e), e.res, e.d1)
            /\ P!BatchLinearizable(e.d0, BatchOf(e), e.res)
            /\ \A i \in 1..Len(e.ops) : e.ops[i] > 0 => e.res[i] = 100
